@@ -25,6 +25,8 @@ pos("asm-frame-offset",S,"	MOVQ y+48(FP), CX	// c = y\n	MOVQ z+0(FP), R10\n\n	MO
 pos("asm-carry-first-element-compare-moved",S,"	LEAQ -1(DX), AX\n	SBBQ BX, BX\n	CMPQ AX, CX\n	SBBQ AX, AX\n	ORQ AX, BX","	LEAQ -1(DX), AX\n	CMPQ AX, CX\n	SBBQ BX, BX\n	SBBQ AX, AX\n	ORQ AX, BX","ASM","carry/·add10VW",quick=True,note="seed r2-C07B: the hardware carry of x[0]+y is overwritten, and the decimal carry is materialised twice")
 pos("asm-carry-first-element-compare-deleted",S,"	LEAQ -1(DX), AX\n	SBBQ BX, BX\n	CMPQ AX, CX\n	SBBQ AX, AX\n	ORQ AX, BX","	LEAQ -1(DX), AX\n	SBBQ BX, BX\n	SBBQ AX, AX\n	ORQ AX, BX","ASM","carry/·add10VW",note="clause (a): the second materialisation reads the carry the first one left")
 neg("asm-carry-first-element-registers-renamed",S,"	LEAQ -1(DX), AX\n	SBBQ BX, BX\n	CMPQ AX, CX\n	SBBQ AX, AX\n	ORQ AX, BX\n	MOVQ DX, AX\n	ANDQ BX, AX\n	SUBQ AX, CX\n	NEGQ BX			// convert to C = 0/1\n	MOVQ CX, 0(R10)(SI*8)\n	MOVQ BX, CX		// save c","	LEAQ -1(DX), AX\n	SBBQ R11, R11\n	CMPQ AX, CX\n	SBBQ AX, AX\n	ORQ AX, R11\n	MOVQ DX, AX\n	ANDQ R11, AX\n	SUBQ AX, CX\n	NEGQ R11			// convert to C = 0/1\n	MOVQ CX, 0(R10)(SI*8)\n	MOVQ R11, CX		// save c",["ASM"])
+pos("asm-sym-sub10vw-tail-rewritten-neg-lost",S,"	MOVQ 0(R8)(SI*8), R11\n	SUBQ CX, R11\n	SBBQ CX, CX\n	MOVQ DX, AX\n	ANDQ CX, AX\n	ADDQ AX, R11\n	NEGQ CX\n	MOVQ R11, 0(R10)(SI*8)\n","	MOVQ 0(R8)(SI*8), BX\n	SUBQ CX, BX\n	SBBQ CX, CX\n	MOVQ DX, AX\n	ANDQ CX, AX\n	ADDQ AX, BX\n	MOVQ BX, 0(R10)(SI*8)\n","ASM","lanes/·sub10VW",quick=True,note="the tail loop rewritten (register renamed) with the conversion of the borrow mask to 0/1 lost: not alignable with the unrolled body, told apart by the symbolic evaluation")
+neg("asm-sym-sub10vw-tail-rewritten",S,"	MOVQ 0(R8)(SI*8), R11\n	SUBQ CX, R11\n	SBBQ CX, CX\n	MOVQ DX, AX\n	ANDQ CX, AX\n	ADDQ AX, R11\n	NEGQ CX\n	MOVQ R11, 0(R10)(SI*8)\n","	MOVQ 0(R8)(SI*8), BX\n	SUBQ CX, BX\n	SBBQ CX, CX\n	MOVQ DX, AX\n	ANDQ CX, AX\n	NEGQ CX\n	ADDQ AX, BX\n	MOVQ BX, 0(R10)(SI*8)\n",["ASM"],quick=True,note="same rewrite, complete: instruction sequences differ, symbolic evaluation shows the same stores and loop-carried registers")
 pos("asm-store-through-source",S,"CLoop:\n	MOVQ 0(R8)(SI*8), AX\n	MOVQ AX, 0(R10)(SI*8)\n	ADDQ $1, SI","CLoop:\n	MOVQ 0(R8)(SI*8), AX\n	MOVQ AX, 0(R8)(SI*8)\n	ADDQ $1, SI","ASM","stores/decCpy")
 pos("asm-kernel-writes-source",S,"	MOVQ R9, 0(R10)(SI*8)\n	ADDQ $1, SI\n	CMPQ SI, DI\n	JL L9","	MOVQ R9, 0(R8)(SI*8)\n	ADDQ $1, SI\n	CMPQ SI, DI\n	JL L9","ASM","stores/·shr10VU")
 pos("asm-result-not-stored",S,"E2:	NEGQ CX\n	MOVQ CX, c+72(FP)	// return c\n	RET","E2:	NEGQ CX\n	RET","ASM","result/·sub10VV")
